@@ -79,8 +79,8 @@ ASSUMPTIONS = [
 ]
 
 FLOORS = {
-    'quick': {'states': 6, 'transitions': 4000, 'validated': 2000, 'outcomes': 3, 'set:symbols_executed': 51, 'set:fault_types': 6, 'set:faults': 15},
-    'thorough': {'states': 6, 'transitions': 250000, 'validated': 90000, 'outcomes': 3, 'set:symbols_executed': 51, 'set:fault_types': 6, 'set:faults': 15},
+    'quick': {'states': 6, 'transitions': 4000, 'validated': 2000, 'outcomes': 3, 'set:symbols_executed': 53, 'set:fault_types': 6, 'set:faults': 15},
+    'thorough': {'states': 6, 'transitions': 250000, 'validated': 90000, 'outcomes': 3, 'set:symbols_executed': 53, 'set:fault_types': 6, 'set:faults': 15},
 }
 
 WD = 10  # seconds per library call
@@ -312,6 +312,8 @@ def parse_sym(name, thunk, src=None):
 parse_sym('parseString(str)', lambda cx: cssutils.parseString(GOOD), f'cssutils.parseString({GOOD!r})')
 parse_sym('parseString(bytes)', lambda cx: cssutils.parseString(GOODB), f'cssutils.parseString({GOODB!r})')
 parse_sym('parseStyle(str)', lambda cx: cssutils.parseStyle('color:red; top:1px'), "cssutils.parseStyle('color:red; top:1px')")
+CSS3 = 'a{opacity:0.5;color:rgba(1,2,3,0.5);color:1px;colr:red}'
+parse_sym('parseString(css3-values)', lambda cx: cssutils.parseString(CSS3), f'cssutils.parseString({CSS3!r})')
 parse_sym('CSSParser(nocomments,novalidate).parseString', lambda cx: cssutils.CSSParser(parseComments=False, validate=False).parseString('/*c*/a{b:c}'))
 parse_sym('parseString(@import,fetcher-ok)', lambda cx: cssutils.CSSParser(fetcher=_f_ok).parseString('@import "i.css";a{left:0}', href='http://e/x.css'))
 parse_sym('parseFile(ok)', lambda cx: cssutils.parseFile(cx.path('ok.css')))
@@ -540,18 +542,25 @@ def _set_prefs(cx):
     prefs.keepComments = False
 
 
+# -- a second explicit, persistent setting: the application restricts the default profiles (verdicts and messages of everything
+#    validated afterwards follow it; nothing validated before may shine through)
+@sym('set-default-profiles(CSS2)', 'cssutils.profile.defaultProfiles = [cssutils.profile.CSS_LEVEL_2]')
+def _set_profiles(cx):
+    cssutils.profile.defaultProfiles = [cssutils.profile.CSS_LEVEL_2]
+
+
 NAMES = [n for n, _ in A]
 INDEX = {n: i for i, n in enumerate(NAMES)}
-ENVS = ('default', 'custom-prefs')
-SETTER_ENV = {INDEX['set-prefs(custom)']: 'custom-prefs'}  # symbol -> environment in effect after it (until the end of the history)
-ENV_PREFIX = {'default': [], 'custom-prefs': [INDEX['set-prefs(custom)']]}
+# symbol -> the explicit setting it makes (in effect until the end of the history); an environment is the set of settings made
+SETTER_ENV = {INDEX['set-prefs(custom)']: 'custom-prefs', INDEX['set-default-profiles(CSS2)']: 'css2-profiles'}
+_SETTER_OF = {v: k for k, v in SETTER_ENV.items()}
+ENVS = ('default', 'custom-prefs', 'css2-profiles', 'css2-profiles+custom-prefs')
+ENV_PREFIX = {e: ([] if e == 'default' else [_SETTER_OF[x] for x in e.split('+')]) for e in ENVS}
 
 
 def env_after(hist):
-    e = 'default'
-    for si in hist:
-        e = SETTER_ENV.get(si, e)
-    return e
+    made = sorted({SETTER_ENV[si] for si in hist if si in SETTER_ENV})
+    return '+'.join(made) or 'default'
 assert len(INDEX) == len(A), 'symbol names must be unique'
 
 VFS_FILES = {
